@@ -95,6 +95,9 @@ def _build(ctx, env, sk, lo_open, hi_open, bound, nmode, sym, den, eps):
         lo_e, hi_e = n_exp, em.Plus(n_exp, em.Real(hi_v))
     else:
         lo_e, hi_e = em.Real(lo_v), em.Real(hi_v)
+    if bound in ("const", "both") and not lo_open and not hi_open:
+        # the zero-length interval [0, 0] (or [n, n] with n = 0) is outside the claim: see OUTSIDE
+        ctx.assume(hi_v > 0)
     try:
         A.set_duration_constraint(_interval(env, lo_e, hi_e, lo_open, hi_open))
     except UPProblemDefinitionError:
